@@ -399,3 +399,29 @@ PROPS["C12"] = {
                      {"mode": "rc", "cases": 6000, "max_size": 100}],
     },
 }
+
+PROPS["C11"] = {
+    "manifest": {
+        "level_text": ("Files are built by an independent encoder from generated logical content AND generated encoding choices (format v1 or "
+                       "v2; block partition from single-entry blocks to one big block; restart points at every entry / only the first / "
+                       "every k / irregular; sharing maximal, none or any amount <= LCP; index separators at the last key, beyond it, "
+                       "just below the next block's first key, or shortened; index restart interval; six algorithms through the system "
+                       "libraries; foreign prefix). The real reader must return exactly the encoded entries for full iteration, the "
+                       "derived lookup set of C02 and generated next/seek histories of C03. The checked-in sample files are read by both "
+                       "implementations as a cross-check of the decoder. Exploration."),
+        "level_note": TRUST + " Not covered: blocks above 4 GiB (64-bit restart arrays) — see DESIGN.md section 9.",
+        "technique": PBT + "; differential testing against an independent encoder with generated encoding choices",
+    },
+    "src": "props/C11.cpp",
+    "level": "exploration",
+    "rule": ("case = (logical entries, format version, algorithm, per-block encoding choices, iterator specs, ops). Non-trivial: a v1 "
+             "file, or non-maximal sharing, or restart points not at every entry, or a separator different from the block's last key "
+             "(i.e. an encoding today's writer would not produce). Distinct by FNV-1a."),
+    "expect_tags": ["format_v1", "format_v2", "multi_block", "non_maximal_sharing", "restarts_not_every_entry",
+                    "separator_not_last_key", "single_entry_block", "foreign_prefix", "sample_v1", "stored_block_ge64KiB"],
+    "assumptions": TABLE_ASSUME,
+    "tiers": {
+        "quick": [{"mode": "samples", "workers": 1}, {"mode": "rc", "cases": 200, "max_size": 100}],
+        "thorough": [{"mode": "samples", "workers": 1}, {"mode": "rc", "cases": 6000, "max_size": 100}],
+    },
+}
